@@ -486,3 +486,78 @@ func c10unescapeSinglePass(c *an.Ctx) {
 		r.Fail(f.Name+": chained replacements", c.P.Pos(f.Body.Pos()), "unmarshalTagValue decodes the escapes with %d successive Replace passes: a byte produced by one pass is read again by the next (an escaped separator followed by '1' or '2' decodes to another byte)", n)
 	}
 }
+
+func init() {
+	old := All["C10"].Run
+	All["C10"].Run = func(c *an.Ctx) {
+		old(c)
+		c10compositeKeyEscaped(c)
+		c10rawScanBehindSemantics(c)
+	}
+	All["C10"].Rules += " R11 R12"
+	addLevel("C10", "Writer, row parser and search build the (measurement, tag key) prefix the same way — composite key into a scratch buffer, then escaped by marshalTagValue — and the raw positive scan of a tag filter is reached only through the two functions that decide negation and the empty value.")
+}
+
+// c10compositeKeyEscaped — C10.R11.  Index rows are written as
+// nsPrefix | marshalTagValue(compositeKey) | marshalTagValue(value) | …; marshalTagValue escapes
+// the bytes 0/1/2 and appends the separator.  A search prefix built without that escaping differs
+// from the stored rows whenever the composite key contains such a byte (a tag key with 0x00..0x02,
+// or any key of a measurement whose name is 128..383 bytes long: the varint length has 0x01/0x02).
+func c10compositeKeyEscaped(c *an.Ctx) {
+	const T = "engine/index/tsi"
+	r := c.Rule("C10.R11", "K-SIBLING", T+": every marshalCompositeTagKey result is built in a scratch buffer and enters a key through marshalTagValue")
+	mk := obj(r, T+":marshalCompositeTagKey")
+	esc := obj(r, T+":marshalTagValue")
+	if mk == nil || esc == nil {
+		return
+	}
+	n := 0
+	for _, cs := range c.P.CallsTo(mk) {
+		if cs.Caller == nil || len(cs.Call.Args) != 3 {
+			continue
+		}
+		n++
+		name := an.CallerName(cs.Caller)
+		info := cs.Caller.Pkg.TypesInfo
+		se, ok := ast.Unparen(cs.Call.Args[0]).(*ast.SliceExpr)
+		scratch := ""
+		if ok && se.Low == nil && se.High != nil {
+			if tv, ok := info.Types[se.High]; ok && tv.Value != nil && tv.Value.String() == "0" {
+				scratch = types.ExprString(se.X)
+			}
+		}
+		if scratch == "" {
+			r.Fail(name+": composite key appended in place", c.P.Pos(cs.Call.Pos()), "%s appends the composite tag key directly to %s instead of building it in a scratch buffer that is then escaped by marshalTagValue: the bytes 0x00..0x02 of the key (and of the varint length of a long measurement name) stay unescaped and the prefix no longer matches the stored rows", name, types.ExprString(cs.Call.Args[0]))
+			continue
+		}
+		escaped := false
+		ast.Inspect(cs.Caller.Decl.Body, func(m ast.Node) bool {
+			ce, ok := m.(*ast.CallExpr)
+			if !ok || len(ce.Args) != 2 || an.Callee(info, ce) != esc {
+				return true
+			}
+			if types.ExprString(ast.Unparen(ce.Args[1])) == scratch {
+				escaped = true
+			}
+			return true
+		})
+		if !escaped {
+			r.Fail(name+": composite key not escaped", c.P.Pos(cs.Call.Pos()), "%s builds the composite tag key in %s but never passes it through marshalTagValue", name, scratch)
+		}
+	}
+	r.AddSites(n)
+	r.Floor(8, "marshalCompositeTagKey call sites")
+}
+
+// c10rawScanBehindSemantics — C10.R12.  searchTSIDsByTagFilter is the raw positive scan of a tag
+// filter; what k='', k!='', k!='v', k!~/re/ and /.*/ select is decided in
+// getTSIDsByTagFilterNoRegex / getTSIDsByTagFilterWithRegex (absent tag ≙ empty string).  A caller
+// that goes to the raw scan directly skips that case analysis.
+func c10rawScanBehindSemantics(c *an.Ctx) {
+	const T = "engine/index/tsi"
+	r := c.Rule("C10.R12", "K-WHOCALLS", T+":(*indexSearch).searchTSIDsByTagFilter (raw positive scan) is called only by the two functions that decide negation and the empty value")
+	c.WhoCalls(r, obj(r, T+":indexSearch.searchTSIDsByTagFilter"), "indexSearch.searchTSIDsByTagFilter", an.Allowed{
+		T + ":(*indexSearch).getTSIDsByTagFilterNoRegex":   "decides =, !=, ='' and !='' for plain values",
+		T + ":(*indexSearch).getTSIDsByTagFilterWithRegex": "decides =~, !~ and the all-match expression",
+	})
+}
